@@ -86,7 +86,7 @@ Proof.
      | EBHalt e => {| w_chain := genesis_chain g; w_comet := {| c_prev := None; c_cur := ∅; c_next := ∅ |}; w_halted := Some (HEndBlock e) |}
      | EBOk c1 upd =>
        {| w_chain := with_poa c1 {| pending := []; cached_power := last_total (stk c1); abs_changed := 0 |};
-          w_comet := {| c_prev := None; c_cur := list_to_map upd; c_next := list_to_map upd |}; w_halted := None |}
+          w_comet := {| c_prev := None; c_cur := apply_updates ∅ upd; c_next := apply_updates ∅ upd |}; w_halted := None |}
      end).
   destruct (apply_valset_updates (genesis_chain g)) as [c1 upd|e] eqn:E; cbn; [|exact H0].
   pose proof (apply_valset_updates_CI _ _ _ H0 E) as [HS [A B C D]].
